@@ -440,6 +440,20 @@ fn random_zone(rng: &mut Rng, em: &mut Emitter, thorough: bool) {
         interesting.push(owner.clone());
         adds.push(Add { owner, rtype, class: cls, ttl, rdata });
     }
+    // C21 corner cases that random choice rarely produces: a second apex SOA, two CNAMEs at one name
+    if rng.chance(1, 6) {
+        let mut rd = soa_rdata(rng, &apex);
+        let n = rd.len();
+        rd[n - 17] = 7; // another serial
+        adds.push(Add { owner: apex.clone(), rtype: T_SOA, class, ttl: 3600, rdata: rd });
+    }
+    if rng.chance(1, 5) {
+        if let Some(c) = adds.iter().find(|a| a.rtype == T_CNAME).cloned() {
+            let mut d = c.clone();
+            d.rdata = wire(&in_zone(rng, 2));
+            adds.push(d);
+        }
+    }
     // shuffle lightly so that apex records are not always first
     for i in (1..adds.len()).rev() {
         if rng.chance(1, 3) {
